@@ -907,4 +907,22 @@ theorem CSteps.view {cfg : Cfg} (hp : cfg.Purges) {s s' : CLdb} {h h' : List Ver
   | refl => exact ⟨hvw, hsh⟩
   | tail pre st ih => exact st.view hp (pre.inv hp hi) ih.1 ih.2
 
+/-- `Get` of a non-zero identifier below the frontier that the cache-free manager serves takes the cached path: the
+    answer is a pointer to an overlay object over the current snapshot, and the view is recorded -/
+theorem get_hist_shape (cfg : Cfg) (s : CLdb) (i : Id) (hs : s.stopped = false) (hz : i.isZero = false)
+    (hf : i ≠ s.ldb.frontierId) (hsome : s.ldb.get i ≠ none) :
+    ∃ o, (s.get cfg i).2 = some (CRoot.hist o s.ldb.frontier) ∧
+      (s.get cfg i).1.views = ⟨i, s.ldb.frontier, o⟩ :: s.views := by
+  unfold CLdb.get
+  unfold Ldb.get at hsome
+  simp only [hs, hz, Bool.false_eq_true, if_false, if_neg hf] at hsome ⊢
+  cases hd : edDecode (rget s.ldb.frontier (keyHeightByHash i.hash)) with
+  | none => simp [hd] at hsome
+  | some hb =>
+    simp only [hd] at hsome ⊢
+    by_cases hh : beVal hb = i.height
+    · simp only [hh, ne_eq, not_true_eq_false, if_false]
+      exact ⟨_, rfl, rfl⟩
+    · simp [hh] at hsome
+
 end ZV.VersionedCache
